@@ -1,2 +1,9 @@
-// Package c07 holds the workload and monitor for property C07 (see /verif/DESIGN.md §3).
+// Package c07 holds the workload and monitor for property C07 (see /verif/DESIGN.md §3):
+// loot stays inside the agent's loot folder and equals what was sent.
+//
+//	c07.go    worker entry: tiers, replay, witness minimisation (ddmin over operations)
+//	gen.go    histories: hostile/benign file names, file ids, interleavings, service ids
+//	model.go  reference name mapping, model of open transfers, landing-zone classes
+//	exec.go   runs a history against the real teamserver and judges every operation
+//	bmp.go    a valid 2x2 bitmap for the screenshot path
 package c07
